@@ -454,3 +454,9 @@ MUTANTS += [
     dict(name="revert_fix_cur_orthogonalize_relative_tol", prop="C07", file=SEL, count=1,
          old="    return tol * max(1.0, np.linalg.norm(item))\n", new="    return selector.tolerance\n"),
 ]
+
+MUTANTS += [
+    dict(name="revert_fix_voronoi_validate_before_reset", prop=["C06", "C08"], file=VOR, count=1,
+         old="        n_to_select_from = X.shape[0]\n\n        if self.full_fraction is None:",
+         new="        n_to_select_from = X.shape[0]\n        self.vlocation_of_idx = np.full(n_to_select_from, 1)\n        self.dSL_ = np.zeros(n_to_select, float)\n\n        if self.full_fraction is None:"),
+]
